@@ -796,11 +796,24 @@ pub fn check_c08(prop: &str, tier: &str) -> i32 {
     cc.rekey(&mut b.msk, &p("A::x && H::lo")).unwrap();
     cc.refresh_usk(&mut b.msk, &mut k6, true).unwrap();
     add!("W1: key for A::x && H::hi after a partial rekey (chains of different lengths)".into(), k6);
+    // a structure with more than 128 attributes: right names of two bytes
+    let (mut bigm, _) = cc.setup().unwrap();
+    bigm.access_structure.add_anarchy("W".into()).unwrap();
+    for i in 0..130 {
+        bigm.access_structure.add_attribute(QualifiedAttribute::new("W", &format!("w{i}")), EncryptionHint::Classic, None).unwrap();
+    }
+    cc.update_msk(&mut bigm).unwrap();
+    let w1_keys = issued.len();
+    let mut kb = cc.generate_user_secret_key(&mut bigm, &p("W::w129")).unwrap();
+    add!("big: key for W::w129 (right name of two bytes)".into(), kb.clone());
+    cc.rekey(&mut bigm, &p("W::w129")).unwrap();
+    cc.refresh_usk(&mut bigm, &mut kb, true).unwrap();
+    add!("big: key for W::w129 after rekey + refresh(keep)".into(), kb);
     let foreign = cc.generate_user_secret_key(&mut other.msk, &p("A::x && H::lo")).unwrap();
 
     // positive control: every issued key refreshes with its own master key (on a copy)
     for (i, k) in issued.iter().enumerate() {
-        let msk = if i < small_keys { &mut small } else { &mut b.msk };
+        let msk = if i < small_keys { &mut small } else if i < w1_keys { &mut b.msk } else { &mut bigm };
         let mut c = k.usk.clone();
         if cc.refresh_usk(msk, &mut c, true).is_err() {
             machinery(&format!("C08: issued key {:?} does not refresh", k.name));
@@ -809,9 +822,10 @@ pub fn check_c08(prop: &str, tier: &str) -> i32 {
     let rights_of = |m: &MasterSecretKey| -> Vec<Vec<u8>> { wire::WMsk::decode(&ser(m)).unwrap().rights.keys().cloned().collect() };
     let small_rights = rights_of(&small);
     let w1_rights = rights_of(&b.msk);
+    let big_rights: Vec<Vec<u8>> = rights_of(&bigm).into_iter().filter(|r| r.len() <= 1 || r == &wire::ids_right(&[128]) || r == &wire::ids_right(&[1])).take(6).collect();
     let mut all: Vec<Forgery> = vec![];
     for ki in 0..issued.len() {
-        let rights = if ki < small_keys { &small_rights } else { &w1_rights };
+        let rights = if ki < small_keys { &small_rights } else if ki < w1_keys { &w1_rights } else { &big_rights };
         let cap = if thorough { 200_000 } else { 20_000 };
         // re-framings are enumerated for keys of <= 3 chains in the quick tier, <= 4 in the thorough one
         let allow = issued[ki].w.chains.iter().map(|c| c.1.len()).sum::<usize>() <= if thorough { 6 } else { 4 } && issued[ki].w.chains.iter().all(|c| c.1.iter().all(|k| k.dk.is_none()));
@@ -854,7 +868,7 @@ pub fn check_c08(prop: &str, tier: &str) -> i32 {
             skipped += 1;
             continue;
         }
-        let msk = if f.key < small_keys { &mut small } else { &mut b.msk };
+        let msk = if f.key < small_keys { &mut small } else if f.key < w1_keys { &mut b.msk } else { &mut bigm };
         let Ok(Ok(usk)) = catch_unwind(|| UserSecretKey::deserialize(&f.bytes)) else {
             parse_rejected += 1;
             per_class.entry(f.class).or_default().0 += 1;
